@@ -19,9 +19,24 @@ import (
 	"os"
 	"sort"
 	"strings"
+	"syscall"
 )
 
 var errInjected = errors.New("injected I/O fault")
+
+// injectedErr: the error an injected fault returns.  Kind "p" / "x" are errors of the permission / already-exists
+// class as the os package reports them (a *PathError around an errno), so that code which tolerates more than
+// "does not exist" (os.IsPermission, os.IsExist, errors.Is(err, fs.ErrPermission)) is exposed; every other kind is
+// an opaque error.
+func injectedErr(kind, op, path string) error {
+	switch kind {
+	case "p":
+		return &os.PathError{Op: op, Path: path, Err: syscall.EACCES}
+	case "x":
+		return &os.PathError{Op: op, Path: path, Err: syscall.EEXIST}
+	}
+	return errInjected
+}
 var errIsDir = errors.New("is a directory")
 
 type memFile struct {
@@ -83,9 +98,9 @@ func (fs *faultFS) tick(ev string) (string, bool) {
 }
 
 func (fs *faultFS) ReadFile(path string) ([]byte, error) {
-	if _, ok := fs.tick("R"); ok {
+	if f, ok := fs.tick("R"); ok {
 		fs.trace = append(fs.trace, "R:"+hx(path)+":0")
-		return nil, errInjected
+		return nil, injectedErr(f, "open", path)
 	}
 	if i, ok := fs.lookup(path); ok {
 		fs.trace = append(fs.trace, "R:"+hx(path)+":1")
@@ -99,9 +114,9 @@ func (fs *faultFS) ReadFile(path string) ([]byte, error) {
 }
 
 func (fs *faultFS) FindWithPrefixAndSuffix(prefix, suffix string) ([]string, error) {
-	if _, ok := fs.tick("L"); ok {
+	if f, ok := fs.tick("L"); ok {
 		fs.trace = append(fs.trace, "L:"+hx(prefix)+":"+hx(suffix)+":0")
-		return nil, errInjected
+		return nil, injectedErr(f, "open", prefix)
 	}
 	fs.trace = append(fs.trace, "L:"+hx(prefix)+":"+hx(suffix)+":1")
 	var ms []string
@@ -131,6 +146,9 @@ func md5hex(b []byte) string {
 func (fs *faultFS) WriteFile(path string, data []byte) error {
 	if f, ok := fs.tick("W"); ok {
 		fs.trace = append(fs.trace, "W:"+hx(path)+":"+md5hex(data)+":0")
+		if f == "p" || f == "x" {
+			return injectedErr(f, "open", path)
+		}
 		if f != "n" {
 			k := atoi(f[1:])
 			if k > len(data) {
@@ -195,7 +213,7 @@ func errClass(err error, isNotEnough func(error) bool) string {
 	switch {
 	case err == nil:
 		return "ok"
-	case errors.Is(err, errInjected):
+	case errors.Is(err, errInjected), errors.Is(err, syscall.EACCES), errors.Is(err, syscall.EEXIST):
 		return "err:io"
 	case errors.Is(err, errIsDir):
 		return "err:io"
